@@ -48,11 +48,11 @@ Definition ex_class : cclass := {|
 
 Theorem class_example :
   cclass_ok ex_class = true /\
-  exists bs aux d, write_class_aux ex_class = OK (bs, aux) /\ facts_of ex_class aux = Some d /\ parse_class bs = Some d /\
+  exists bs aux d, write_class_aux ex_class = WOK (bs, aux) /\ facts_of ex_class aux = Some d /\ parse_class bs = Some d /\
                    zlen bs = 567 /\ length (d_attrs d) = 5%nat /\ a_bsm aux = [(ex_handle, [19; 4])].
 Proof.
   split; [vm_compute; reflexivity|].
-  destruct (write_class_aux ex_class) as [[bs aux]| |] eqn:E; [|vm_compute in E; discriminate|vm_compute in E; discriminate].
+  destruct (write_class_aux ex_class) as [[bs aux]|?c|] eqn:E; [|vm_compute in E; discriminate|vm_compute in E; discriminate].
   destruct (write_class_decodes ex_class bs aux ltac:(vm_compute; reflexivity) E) as (d & Hd & Hp).
   exists bs, aux, d. split; [reflexivity|split; [exact Hd|split; [exact Hp|]]].
   vm_compute in E. injection E as <- <-. vm_compute in Hd. injection Hd as <-. vm_compute. repeat split.
